@@ -215,6 +215,9 @@ WASI_CASES = r"""
 """
 
 
+WASI_CASES += open(os.path.join(env.VERIF, 'harness', 'wasi_readdir_case.inc')).read()
+
+
 def gen_driver(plan, module_name, header, multi=False, shared_ok=True, wasi=False):
     """C source of the driver for one module."""
     M = module_name
